@@ -15,6 +15,8 @@ Record csearch := mkCSearch { cs_req : request; cs_v0 : N; cs_v1 : N; cs_out : q
 Inductive c09case :=
 | C09Run (sc : schema) (maxsize : N) (batches : list (batch * bout)) (searches : list csearch)
          (final_warm final_cold : list (uuid * doc)) (races : N)
+| C09Forced (sc : schema) (maxsize : N) (batches : list (batch * bout)) (searches : list csearch)
+            (final_warm final_cold : list (uuid * doc))
 | C09Crash (what : N).
 
 (* committed versions: S_0 = empty, S_{k+1} = S_k after batch k if it reported success *)
@@ -49,11 +51,29 @@ Definition row_ok (vs : list store) (r : row) : bool :=
 
 Definition judge_search (all : list store) (c : csearch) : N :=
   match cs_out c with
-  | QError k => 190 + k            (* 191 point does not exist, 192 transaction ended, 193 other *)
+  | QError k => if k =? 5 then 194 else 190 + k   (* 191 point does not exist, 192 transaction ended, 193 other,
+                                                     194 a node the index search needs is read as absent *)
   | QRows rows =>
       let vs := window (N.to_nat (cs_v0 c)) (N.to_nat (cs_v1 c)) all in
       if negb (nodup_ids (map r_id rows)) then 195
       else if forallb (row_ok vs) rows then 0 else 196
+  end.
+
+(* forced schedules, cs_v1 = 1, 2, 3: the search ran, start to end, while the writer was stopped inside its
+   bbolt write transaction (1: before the batch callback, 2: after it returned nil, 3: after it returned an
+   error; nothing committed in any of them). cs_v1 = 4, 5: no writer at all; reader 4 started on a cold
+   shard, reader 5 was started on the same shared cache at a chosen bucket operation of reader 4.
+   The only committed version is cs_v0: the search must succeed and every row must be live there with the
+   document of that version. *)
+Definition judge_forced (all : list store) (c : csearch) : N :=
+  let base := if cs_v1 c <=? 3 then 170 else 160 in
+  match cs_out c with
+  | QError k => base + k           (* +1 point does not exist, +2 transaction ended, +3 other, +4 hung,
+                                      +5 a node the index search needs is read as absent *)
+  | QRows rows =>
+      let vs := window (N.to_nat (cs_v0 c)) (N.to_nat (cs_v0 c)) all in
+      if negb (nodup_ids (map r_id rows)) then base + 6
+      else if forallb (row_ok vs) rows then 0 else base + 7
   end.
 
 Fixpoint first_nonzero (l : list N) : N :=
@@ -71,6 +91,14 @@ Definition verdict (c : c09case) : N :=
       if negb (c1 =? 0) then c1 else
       if negb (store_eqb fw final) then 197 else
       if negb (store_eqb fc final) then 198 else 0
+  | C09Forced sc maxsize bs searches fw fc =>
+      let all := versions sc maxsize bs [] in
+      let final := last all [] in
+      if negb (outputs_ok sc maxsize bs []) then 101 else
+      let c1 := first_nonzero (map (judge_forced all) searches) in
+      if negb (c1 =? 0) then c1 else
+      if negb (store_eqb fw final) then 178 else
+      if negb (store_eqb fc final) then 179 else 0
   end.
 
 Fixpoint bad_from (i : N) (cs : list c09case) : list (N * N) :=
